@@ -32,3 +32,15 @@ Inductive status_error := ECheckCondition | EOther (e : exn).
 Definition sam_status_error : list (N * status_error) :=
   [(2, ECheckCondition); (4, EOther ConditionsMet); (8, EOther BusyStatus); (24, EOther ReservationConflict);
    (40, EOther TaskSetFull); (48, EOther ACAActive); (64, EOther TaskAborted)]%N.
+
+(* SPC-4 table 140 peripheral device types -> the command standard that governs them *)
+Open Scope string_scope.
+Definition cmdset_of_type (t : N) : option string :=
+  match t with
+  | 0 | 4 | 7 => Some "sbc"     (* direct access, write-once, optical memory block devices *)
+  | 1 => Some "ssc"             (* sequential access *)
+  | 5 => Some "mmc"             (* CD/DVD *)
+  | 8 => Some "smc"             (* media changer *)
+  | _ => None                   (* processor and everything else: any set that offers the primary commands *)
+  end%N.
+Definition primary_commands : list (string * N) := [("INQUIRY", 18); ("TEST_UNIT_READY", 0); ("REPORT_LUNS", 160)]%N.
